@@ -31,8 +31,8 @@ Definition ex_lines : list line := [
   (* txt.example.com. CH 300 TXT "hello \"world\"" plain *)
   MkLine [] [(w "txt.example.com.", sp); (w "CH", sp); (w "300", sp); (w "TXT", sp);
              (IQuoted (s2l "hello ""world"""), sp); (w "plain", [])] None [10];
-  (* $ORIGIN sub.example.com. *)
-  MkLine [] [(IDir DOrigin, sp); (w "sub.example.com.", [])] None [10];
+  (* $ORIGIN sub   (relative: completed with the current origin example.com.) *)
+  MkLine [] [(IDir DOrigin, sp); (w "sub", [])] None [10];
   (* www IN CNAME ns1.example.com. ;c *)
   MkLine [] [(w "www", sp); (w "in", sp); (w "Cname", sp); (w "ns1.example.com.", sp)] (Some (s2l "c")) [10]
 ].
@@ -101,8 +101,9 @@ Proof.
     - apply dw_txt.
     - reflexivity.
     - reflexivity. }
-  (* $ORIGIN sub.example.com. *)
-  eapply zt_skip; [apply (lt_origin _ (nm ["sub"; "example"; "com"]%string)); reflexivity|].
+  (* $ORIGIN sub *)
+  eapply zt_skip; [apply (lt_origin _ (nm ["sub"; "example"; "com"]%string) (s2l "sub"));
+                     [reflexivity|apply (nt_rel_eq _ _ [s2l "sub"]); [discriminate|reflexivity|reflexivity]]|].
   (* www in Cname ns1.example.com. *)
   eapply zt_rec.
   { eapply (lt_rec_eq _ _ [TChar (s2l "www")] [TChar (s2l "in")] false (s2l "Cname") [TChar (s2l "ns1.example.com.")] [s2l "ns1.example.com."]).
